@@ -72,6 +72,24 @@ MORE = {
  "C18": " The loader's record loop (shared with C04): every record kind incl. whitespace-valued opcodes.",
  "C19": " A failing foreign call's error reaches the caller unchanged (run step).",
 }
+MORE2 = {
+ "C01": " The bin_op handler: which operand is the left one, the operator each symbol applies (Kani, all operand values) and the Op::symbol table; a block's own locals are not captured by the enclosing function (else statement).",
+ "C02": " Declared result kinds of the built-in number methods and string parsers = the kinds the built-ins return (table comparison against the c14_num / c14_pow / c14_parse contracts); a literal too large for an int has kind bigint.",
+ "C03": " The methods offered on a fixed-shape list neither move, remove nor add elements; an unpacking declaration with more names than positions is a diagnostic.",
+ "C04": " The in-memory route of `run`: From<CompiledItem> for Instruction, seal_compiled_items, MScriptFileBuilder::add_function, Functions::add_function hand every opcode and argument on unchanged, each function under its own name.",
+ "C05": " The handlers: bin_op (operand sides, values through pointers, result), its operator table symbol by symbol (Kani), by-value operator impls, equ / neq (one notion of equality), neg / not; the Op::symbol table.",
+ "C07": " get_net_dependencies / eq_allow_callbacks: exactly the mentions no own declaration satisfies are free variables; a same-block local never hides a captured variable.",
+ "C08": " Member resolution on an object (Object::get_property / has_variable / has_function): own field, else the method registered as exactly `Class::name`.",
+ "C12": " Constant folding of `get e` (a constant nil operand is rejected however it is spelled) and `(p) or f`; the postfix `or` binds tighter than every prefix / binary operator.",
+ "C14": " String parsers (which text goes to which std parser; exactly one `0x` / `0b` prefix; radix domain), sqrt / pow / powf applied to the receiver's whole value, string repetition (n copies or a failure).",
+ "C15": " bin_op applies the operator to (left, right) in that order.",
+ "C16": " The bounds guard of an unpacking declaration (no underflow, no out-of-range swap_remove); Display for ListType on the empty list.",
+ "C17": " Radix outside 2..36, string repetition beyond the address space: failures, not panics (D60, D61).",
+ "C18": " run / execute default stack size (shared with C04).",
+ "C19": " The trace listing (Display for Stack) and the argument decoder the loader runs call_lib's names through are part of this check."
+}
+for _k, _v in MORE2.items():
+    MORE[_k] = MORE.get(_k, "") + _v
 NOTES = {
  "C02": "the native operator table, the run-time operators and the listed parser functions; the non-list arms of eq_complex and soundness as one composed theorem are not decided",
  "C03": "pest API, lookups and sub-parsers abstract; diagnostics' position text and unknown-name faults are not decided",
@@ -79,11 +97,11 @@ NOTES = {
  "C10": "class fields, the postfix steps of an assignment path and the marking of class / import idents as const are not under contract; scope push/pop discipline assumed",
  "C11": "RefCell<HashMap> as &mut finite map; the compile queue and path spelling are not covered",
  "C13": "gc/RefCell/std::Vec semantics assumed; keys/values/pairs order, then/finish of the bridges and composition over operation histories not covered",
- "C14": "K-t extraction of match arms; parse_*, sqrt/pow, replace, contains, chars not covered",
+ "C14": "K-t extraction of match arms; replace, contains, chars, reverse, to_str not covered; f64 sqrt / powf / powi and std numeral parsers are the definition of the result (uninterpreted)",
  "C15": "recursive compile_depth calls assumed to satisfy the same register frame contract; index / method-call receivers not covered",
  "C17": "as C05/C14; the text of Program::execute's report and process exit status are not covered",
  "C19": "libloading and the dylib ABI assumed; the error report text not covered",
- "C08": "gc cell semantics assumed; make_object / call_object / ld_self and method-call chains (DotChain::compile) not under contract",
+ "C08": "gc cell semantics assumed; make_object / call_object / ld_self are not under contract",
  "C04": "strings as char sequences (UTF-8 layer not modelled); the loop around the record step and malformed records are not covered; std contracts assumed; rule table",
 }
 for k, extra in MORE.items():
